@@ -1504,7 +1504,10 @@ impl AstNode for ChainSpecificBlock {
                 let block = crate::cardano::CardanoBlock::parse(block)?;
                 Ok(ChainSpecificBlock::Cardano(block))
             }
-            x => unreachable!("Unexpected rule in chain_specific_block: {:?}", x),
+            x => Err(Error::custom(
+                format!("unsupported chain specific block: {:?}", x),
+                block.as_span(),
+            )),
         }
     }
 
